@@ -111,19 +111,23 @@ theorem gLoc_wLoc (nl : WLoc × Nat) (h : (nl.1.urgent && nl.1.committed) = fals
 
 /-! ### one edge -/
 
-structure EdgeOk (e : WEdge) : Prop where
-  prob : nontrivial e.prob = none
+structure EdgeOk (c : WCfg) (e : WEdge) : Prop where
+  prob : c.prob = true ∨ nontrivial e.prob = none
   sel : e.select = [] ∨ ∃ s, e.select = [s] ∧ s.named = true
-  ctrl : e.ctrl = true
-  ends : ∃ s d, e.src = .loc s ∧ e.dst = .loc d
+  ctrl : c.ctrl = true ∨ e.ctrl = true
+  ends : ∃ s d, wEnd c e.src = some s ∧ wEnd c e.dst = some d
 
-theorem edgeOk_of (e : WEdge) (h : edgeShapes e = []) : EdgeOk e := by
+theorem edgeOk_of (c : WCfg) (e : WEdge) (h : edgeShapes c e = []) : EdgeOk c e := by
   simp only [edgeShapes, List.append_eq_nil_iff] at h
   obtain ⟨⟨⟨⟨h1, h2⟩, h3⟩, h4⟩, h5⟩ := h
   refine ⟨?_, ?_, ?_, ?_⟩
-  · cases hp : nontrivial e.prob with
-    | none => rfl
-    | some s => simp [hp] at h1
+  · cases hc : c.prob with
+    | true => exact Or.inl rfl
+    | false =>
+      right
+      cases hp : nontrivial e.prob with
+      | none => rfl
+      | some s => simp [hc, hp] at h1
   · cases hs : e.select with
     | nil => exact Or.inl rfl
     | cons s r =>
@@ -135,57 +139,68 @@ theorem edgeOk_of (e : WEdge) (h : edgeShapes e = []) : EdgeOk e := by
         | true => rfl
         | false => simp [hs, hn, selShapes] at h3
       | cons s2 r2 => simp [hs] at h2
-  · cases hc : e.ctrl with
-    | true => rfl
-    | false => simp [hc] at h4
-  · cases hs : e.src with
-    | loc s =>
-      cases hd : e.dst with
-      | loc d => exact ⟨s, d, rfl, rfl⟩
-      | bp _ => simp [hs, hd] at h5
-    | bp _ => simp [hs] at h5
+  · cases hc : c.ctrl with
+    | true => exact Or.inl rfl
+    | false =>
+      right
+      cases he : e.ctrl with
+      | true => rfl
+      | false => simp [hc, he] at h4
+  · cases hs : wEnd c e.src with
+    | some s =>
+      cases hd : wEnd c e.dst with
+      | some d => exact ⟨s, d, rfl, rfl⟩
+      | none => simp [hs, hd] at h5
+    | none => simp [hs] at h5
 
-def wEdge' (e : WEdge) : Xml :=
-  match e.src, e.dst with
-  | .loc s, .loc d => .elem "transition" [] (wEdgeKids e s d)
-  | _, _ => .elem "transition" [] []
+def wEdge' (c : WCfg) (e : WEdge) : Xml :=
+  .elem "transition" (wEdgeAttrs c e) (wEdgeKids c e ((wEnd c e.src).getD "") ((wEnd c e.dst).getD ""))
 
-theorem wEdge_ok (e : WEdge) (h : EdgeOk e) : wEdge e = some (wEdge' e) := by
+theorem wEdge_ok (c : WCfg) (e : WEdge) (h : EdgeOk c e) : wEdge c e = some (wEdge' c e) := by
   obtain ⟨s, d, hs, hd⟩ := h.ends
   simp [wEdge, wEdge', hs, hd]
 
 theorem filterMap_lblF_append (a b : List Xml) : (a ++ b).filterMap lblF = a.filterMap lblF ++ b.filterMap lblF :=
   List.filterMap_append
 
-theorem gEdge_wEdge (e : WEdge) (h : EdgeOk e) :
-    ∃ k, wEdge' e = Xml.elem "transition" [] k ∧ gEdge [] k = gedgeOf e := by
+theorem wEnd_eq_endId (c : WCfg) (x : WEnd) : wEnd c x = endId c x := by
+  cases x <;> rfl
+
+theorem gEdge_wEdge (c : WCfg) (e : WEdge) (h : EdgeOk c e) :
+    ∃ a k, wEdge' c e = Xml.elem "transition" a k ∧ gEdge a k = gedgeOf c e := by
   obtain ⟨s, d, hs, hd⟩ := h.ends
-  refine ⟨wEdgeKids e s d, by simp [wEdge', hs, hd], ?_⟩
-  have hlab : (wEdgeLabels e).filterMap lblF =
+  refine ⟨wEdgeAttrs c e, wEdgeKids c e s d, by simp [wEdge', hs, hd], ?_⟩
+  have hlab : (wEdgeLabels c e).filterMap lblF =
       (if e.select.isEmpty then [] else [("select", selectsText e.select)]) ++ optLabel "guard" e.guard ++
         optLabel "synchronisation" e.sync ++ optLabel "assignment" e.assign ++ optLabel "probability" e.prob := by
-    have hp : optLabel "probability" e.prob = [] := by simp [optLabel, h.prob]
-    simp only [wEdgeLabels, filterMap_lblF_append, filterMap_wOptLabel, hp, List.append_nil]
+    have hp : (if c.prob then wOptLabel "probability" e.prob else []).filterMap lblF = optLabel "probability" e.prob := by
+      rcases h.prob with hc | hn
+      · simp [hc, filterMap_wOptLabel]
+      · cases hc : c.prob <;> simp [filterMap_wOptLabel, optLabel, hn]
+    simp only [wEdgeLabels, filterMap_lblF_append, filterMap_wOptLabel, hp]
     rcases h.sel with hsel | ⟨x, hsel, hnamed⟩
     · simp [hsel]
     · simp [hsel, hnamed, lblF, contentOf, txtStr, List.lookup, selectsText]
-  simp only [gEdge, gedgeOf, hs, hd, endId, h.ctrl, List.lookup]
-  have hfm : (wEdgeKids e s d).filterMap lblF = (wEdgeLabels e).filterMap lblF := by
+  have hctrl : ctrlOfAttrs (wEdgeAttrs c e) = e.ctrl := by
+    rcases h.ctrl with hc | he
+    · cases he : e.ctrl <;> simp [ctrlOfAttrs, wEdgeAttrs, hc, he, List.lookup]
+    · simp [ctrlOfAttrs, wEdgeAttrs, he, List.lookup]
+  have hfm : (wEdgeKids c e s d).filterMap lblF = (wEdgeLabels c e).filterMap lblF := by
     simp [wEdgeKids, lblF, List.filterMap_cons]
-  rw [hfm, hlab]
+  simp only [gEdge, gedgeOf, hctrl, hfm, hlab, ← wEnd_eq_endId, hs, hd]
   simp [wEdgeKids, refOf, List.findSome?, List.lookup]
 
 /-! ### one template -/
 
-structure TemplOk (t : WTempl) : Prop where
+structure TemplOk (c : WCfg) (t : WTempl) : Prop where
   init : ∃ i, t.init = some i
-  edges : ∀ e ∈ t.edges, EdgeOk e
+  edges : ∀ e ∈ t.edges, EdgeOk c e
   locs : ∀ l ∈ t.locs, (l.urgent && l.committed) = false
 
-theorem templOk_of (t : WTempl) (h : templShapes t = []) : TemplOk t := by
+theorem templOk_of (c : WCfg) (t : WTempl) (h : templShapes c t = []) : TemplOk c t := by
   simp only [templShapes, List.append_eq_nil_iff, List.flatMap_eq_nil_iff] at h
   obtain ⟨⟨h1, h2⟩, h3⟩ := h
-  refine ⟨?_, fun e he => edgeOk_of e (h1 e he), ?_⟩
+  refine ⟨?_, fun e he => edgeOk_of c e (h1 e he), ?_⟩
   · cases hi : t.init with
     | some i => exact ⟨i, rfl⟩
     | none => simp [hi] at h3
@@ -196,15 +211,15 @@ theorem templOk_of (t : WTempl) (h : templShapes t = []) : TemplOk t := by
       have : t.locs.any (fun l => l.urgent && l.committed) = true := List.any_eq_true.mpr ⟨l, hl, hb⟩
       simp [this] at h2
 
-def wTempl' (t : WTempl) : Xml :=
+def wTempl' (c : WCfg) (t : WTempl) : Xml :=
   .elem "template" []
     ([Xml.elem "name" [] [.text (.str t.name)], Xml.elem "parameter" [] [], Xml.elem "declaration" [] []] ++
      (t.locs.zipIdx.map (fun nl => Xml.elem "location" (wLocAttrs nl) (wLocKids nl)) ++
-      ([Xml.elem "init" [("ref", idOf (t.init.getD 0))] []] ++ t.edges.map wEdge')))
+      (wBps c t ++ ([Xml.elem "init" [("ref", idOf (t.init.getD 0))] []] ++ t.edges.map (wEdge' c)))))
 
-theorem wTempl_ok (t : WTempl) (h : TemplOk t) : wTempl t = some (wTempl' t) := by
+theorem wTempl_ok (c : WCfg) (t : WTempl) (h : TemplOk c t) : wTempl c t = some (wTempl' c t) := by
   obtain ⟨i, hi⟩ := h.init
-  have := allSome_map_some wEdge wEdge' t.edges (fun e he => wEdge_ok e (h.edges e he))
+  have := allSome_map_some (wEdge c) (wEdge' c) t.edges (fun e he => wEdge_ok c e (h.edges e he))
   simp [wTempl, wTempl', hi, this]
 
 theorem filterMap_none {α β} (f : α → Option β) (l : List α) (h : ∀ x ∈ l, f x = none) : l.filterMap f = [] := by
@@ -218,12 +233,23 @@ theorem filterMap_map_some {α β γ} (f : β → Option γ) (g : α → β) (k 
   | nil => rfl
   | cons x r ih => simp [List.filterMap_cons, h x (by simp), ih (fun y hy => h y (by simp [hy]))]
 
-theorem gTempl_wTempl (t : WTempl) (h : TemplOk t) :
-    ∃ k, wTempl' t = Xml.elem "template" [] k ∧ gTempl k = gtemplOf t := by
+theorem wBps_none {β} (c : WCfg) (t : WTempl) (f : Xml → Option β)
+    (hf : ∀ a k, f (Xml.elem "branchpoint" a k) = none) : (wBps c t).filterMap f = [] := by
+  apply filterMap_none
+  intro x hx
+  unfold wBps at hx
+  cases hc : c.bps with
+  | false => simp [hc] at hx
+  | true =>
+    simp only [hc, ↓reduceIte] at hx
+    obtain ⟨b, _, rfl⟩ := List.mem_map.mp hx
+    exact hf _ _
+
+theorem gTempl_wTempl (c : WCfg) (t : WTempl) (h : TemplOk c t) :
+    ∃ k, wTempl' c t = Xml.elem "template" [] k ∧ gTempl k = gtemplOf c t := by
   obtain ⟨i, hi⟩ := h.init
   refine ⟨_, rfl, ?_⟩
-  have hwe : ∀ e : WEdge, ∃ k, wEdge' e = Xml.elem "transition" [] k := by
-    intro e; unfold wEdge'; split <;> exact ⟨_, rfl⟩
+  have hwe : ∀ e : WEdge, ∃ a k, wEdge' c e = Xml.elem "transition" a k := fun e => ⟨_, _, rfl⟩
   -- locations
   have hlocs : (t.locs.zipIdx.map (fun nl => Xml.elem "location" (wLocAttrs nl) (wLocKids nl))).filterMap locF
       = t.locs.zipIdx.map glocOf := by
@@ -231,28 +257,95 @@ theorem gTempl_wTempl (t : WTempl) (h : TemplOk t) :
     intro nl hnl
     simp only [locF, ↓reduceIte]
     rw [gLoc_wLoc nl (h.locs nl.1 (List.fst_mem_of_mem_zipIdx hnl))]
-  have hlocsE : (t.edges.map wEdge').filterMap locF = [] := by
+  have hlocsE : (t.edges.map (wEdge' c)).filterMap locF = [] := by
     apply filterMap_none; intro x hx
     obtain ⟨e, _, rfl⟩ := List.mem_map.mp hx
-    obtain ⟨k, hk⟩ := hwe e; simp [hk, locF]
+    obtain ⟨a, k, hk⟩ := hwe e; simp [hk, locF]
   -- init
   have hinitL : (t.locs.zipIdx.map (fun nl => Xml.elem "location" (wLocAttrs nl) (wLocKids nl))).filterMap initF = [] := by
     apply filterMap_none; intro x hx
     obtain ⟨nl, _, rfl⟩ := List.mem_map.mp hx; simp [initF]
-  have hinitE : (t.edges.map wEdge').filterMap initF = [] := by
+  have hinitE : (t.edges.map (wEdge' c)).filterMap initF = [] := by
     apply filterMap_none; intro x hx
     obtain ⟨e, _, rfl⟩ := List.mem_map.mp hx
-    obtain ⟨k, hk⟩ := hwe e; simp [hk, initF]
+    obtain ⟨a, k, hk⟩ := hwe e; simp [hk, initF]
   -- edges
   have hedgesL : (t.locs.zipIdx.map (fun nl => Xml.elem "location" (wLocAttrs nl) (wLocKids nl))).filterMap edgeF = [] := by
     apply filterMap_none; intro x hx
     obtain ⟨nl, _, rfl⟩ := List.mem_map.mp hx; simp [edgeF]
-  have hedges : (t.edges.map wEdge').filterMap edgeF = t.edges.map gedgeOf := by
+  have hedges : (t.edges.map (wEdge' c)).filterMap edgeF = t.edges.map (gedgeOf c) := by
     apply filterMap_map_some
     intro e he
-    obtain ⟨k, hk, hg⟩ := gEdge_wEdge e (h.edges e he)
+    obtain ⟨a, k, hk, hg⟩ := gEdge_wEdge c e (h.edges e he)
     simp [hk, edgeF, hg]
-  simp only [gTempl, gtemplOf, List.filterMap_append, hlocs, hlocsE, hinitL, hinitE, hedgesL, hedges, hi, Option.getD_some]
+  have hb1 := wBps_none c t locF (by intro a k; simp [locF])
+  have hb2 := wBps_none c t initF (by intro a k; simp [initF])
+  have hb3 := wBps_none c t edgeF (by intro a k; simp [edgeF])
+  simp only [gTempl, gtemplOf, List.filterMap_append, hlocs, hlocsE, hinitL, hinitE, hedgesL, hedges, hb1, hb2, hb3, hi,
+    Option.getD_some]
   simp [locF, initF, edgeF, childText, List.findSome?, contentOf, txtStr, List.filterMap_cons, List.lookup]
+
+/-! ### when the writer crashes -/
+
+theorem allSome_eq_none_iff {α} (l : List (Option α)) : allSome l = none ↔ none ∈ l := by
+  induction l with
+  | nil => simp [allSome]
+  | cons x r ih =>
+    cases x with
+    | none => simp [allSome]
+    | some a => simp [allSome, ih]
+
+theorem mem_ite_singleton {α} (c : Prop) [Decidable c] (a b : α) : a ∈ (if c then [b] else []) ↔ c ∧ a = b := by
+  by_cases h : c <;> simp [h]
+
+theorem selShapes_only (select : List WSel) (x : Shape) (hx : x ≠ Shape.selectTypeDropped) : x ∉ selShapes select := by
+  cases select with
+  | nil => simp [selShapes]
+  | cons s r => cases hn : s.named <;> simp [selShapes, hn, hx]
+
+theorem bp_mem_edgeShapes (c : WCfg) (e : WEdge) : Shape.branchpointEndpoint ∈ edgeShapes c e ↔ wEdge c e = none := by
+  obtain ⟨src, dst, ctrl, select, guard, sync, assign, prob⟩ := e
+  have h1 := selShapes_only select Shape.branchpointEndpoint (by decide)
+  simp only [edgeShapes, List.mem_append, mem_ite_singleton, h1, or_false]
+  cases hs : wEnd c src <;> cases hd : wEnd c dst <;> simp [wEdge, hs, hd]
+
+theorem noInit_not_mem_edgeShapes (c : WCfg) (e : WEdge) : Shape.noInit ∉ edgeShapes c e := by
+  obtain ⟨src, dst, ctrl, select, guard, sync, assign, prob⟩ := e
+  have h1 := selShapes_only select Shape.noInit (by decide)
+  simp only [edgeShapes, List.mem_append, mem_ite_singleton, h1, or_false]
+  cases hs : wEnd c src <;> cases hd : wEnd c dst <;> simp [hs, hd]
+
+theorem wTempl_eq_none_iff (c : WCfg) (t : WTempl) :
+    wTempl c t = none ↔ Shape.branchpointEndpoint ∈ templShapes c t ∨ Shape.noInit ∈ templShapes c t := by
+  have hE : allSome (t.edges.map (wEdge c)) = none ↔ ∃ e ∈ t.edges, wEdge c e = none := by
+    rw [allSome_eq_none_iff]; simp [List.mem_map]
+  have hb : Shape.branchpointEndpoint ∈ templShapes c t ↔ ∃ e ∈ t.edges, wEdge c e = none := by
+    simp only [templShapes, List.mem_append, List.mem_flatMap, mem_ite_singleton, bp_mem_edgeShapes]
+    simp
+  have hn : Shape.noInit ∈ templShapes c t ↔ t.init = none := by
+    simp only [templShapes, List.mem_append, List.mem_flatMap, mem_ite_singleton]
+    constructor
+    · rintro ((⟨e, _, he⟩ | h) | h)
+      · exact absurd he (noInit_not_mem_edgeShapes c e)
+      · simp at h
+      · simpa using h.1
+    · intro h; right; simp [h]
+  rw [hb, hn, ← hE]
+  cases hi : t.init with
+  | none => simp [wTempl, hi]
+  | some i =>
+    cases ha : allSome (t.edges.map (wEdge c)) with
+    | none => simp [wTempl, hi, ha]
+    | some es => simp [wTempl, hi, ha]
+
+theorem unbound_not_mem_templShapes (c : WCfg) (t : WTempl) : Shape.unboundProcess ∉ templShapes c t := by
+  simp only [templShapes, List.mem_append, List.mem_flatMap, mem_ite_singleton, not_or, not_exists, not_and]
+  refine ⟨⟨?_, by simp⟩, by simp⟩
+  intro e _
+  obtain ⟨src, dst, ctrl, select, guard, sync, assign, prob⟩ := e
+  have h1 := selShapes_only select Shape.unboundProcess (by decide)
+  simp only [edgeShapes, List.mem_append, mem_ite_singleton, h1, or_false]
+  cases hs : wEnd c src <;> cases hd : wEnd c dst <;> simp [hs, hd]
+
 
 end UtapModel.AM
